@@ -30,6 +30,8 @@ func init() {
 			{ID: "C20-R8", Title: "source-order comparisons are lexicographic (shared with C05-R5)", Floor: 1, Run: lexicographicBoth},
 			{ID: "C20-R9", Title: "the lexer indexes and slices only under a length test (shared with C03-R10)", Floor: 1, Run: lexerIndexingGuarded},
 			{ID: "C20-R6", Title: "error renderers index and slice only under a length test (shared with C03-R6)", Floor: 5, Run: formatterBounds},
+			{ID: "C20-R10", Title: "the lexer's cursor fields move together", Floor: 1, Run: cursorFieldsMoveTogether},
+			{ID: "C20-R11", Title: "every spelling of a line break is lexed under the same conditions", Floor: 1, Run: lineEndingsTreatedAlike},
 		},
 	})
 }
